@@ -329,6 +329,9 @@ class C12(core.Property):
                   "MP.stable_leader_commits_any_ack_order / MP.stable_leader_resolves_future: every action of the sequence is an Accepted delivery or a handler of a node other than the leader "
                   "(StableAct); the slot lies inside the leader's log, an acknowledgement for it is in the sequence and the counted acknowledgements reach q2 by the end; for the future: the leader has applied "
                   "what it committed (Caught) and the future is registered for the slot",
+                  "Px.single_proposer_decides: p < n, b % n = p, n < q1 + q2, 2 <= q1, 1 <= q2; Q1, Q2 duplicate-free lists of acceptors < n without p, |Q1| + 1 >= q1, |Q2| + 1 >= q2; every action of the two "
+                  "schedule segments is a delivery of ballot-b traffic or of a Decided message not addressed to p (DelivB, NotTo); Before(recvPrepare b d, recvPromise b d) in the first segment for d in Q1, "
+                  "Before(recvAccept b d, recvAccepted b d) in the second for d in Q2",
                   "Px.prepare_step / accept_step / accepted_step / decide_G / decided_step: the state satisfies G n q1 q2 p b (configuration fixed, ballot b of p live with its future 0, every acceptor's promise <= b, "
                   "p promised b, phase-1 / phase-2 quorum guards); accepted_step / decide_G: b % n = p; decided_step: the Decided message is not addressed to p",
                   "promise_judge_silent: lo is a subset and hi a superset of the votes of the run, proms a subset of its promises"]
@@ -353,14 +356,13 @@ class C12(core.Property):
             "the hypothesis, not a decidable predicate over arbitrary schedules (late duplicate promises, which re-replicate, are outside the proved shape; the judge covers them).  Not covered, "
             "because false of the pinned tree: a command submitted to an *established* leader is appended but never replicated (submit() returns no events), a command submitted to a non-leader is parked; "
             "followers learn the commit index only from later Accepts / heartbeats (MultiPaxosNode stops heartbeating after its first own tick) — 'applied at every node' is not judged",
-        "single_proposer_decides (liveness)": "bounded-progress form STATED (Px.single_proposer_decides_full in lean/HappyProofs/C12/PxLive.lean: from init, p proposes v under ballot b, nobody else proposes, the "
-            "schedule delivers the Prepare to Q1 and the Promises back, then the Accepts to Q2 and the Accepted back, any order, repetitions, other deliveries of existing traffic arbitrary => p decides v, "
-            "its future resolves with v, nobody decides anything else, every other node has decided v or has Decided(v) waiting) but NOT proved in full. Proved: the invariant G of the single-ballot world and, "
-            "for each delivery, that it keeps G, never lowers an acceptor's stage (Mono) and advances the acceptor concerned by one stage — Px.prepare_step (Prepare -> Promise in flight), Px.accept_step "
-            "(Accept -> Accepted in flight), Px.accepted_step (Accepted -> counted, _decide on the q2-th), Px.decide_G (decided flag, future resolved), Px.decided_step; concrete runs by decide: "
-            "Px.single_proposer_example (n = 3: decides, future resolves, both learners decide; another interleaving with duplicates) and the counter-example Px.single_proposer_lost_link_undecided "
-            "(one Promise never delivered: nobody decides, future pending). Missing: the Promise step with _start_phase2 (needs the extra invariant 'no phase-2 traffic before phase 2 starts') and the "
-            "assembly over the schedule (stage induction + counting Q1 / Q2 against q1 / q2 with Px.nodup_subset_length)",
+        "single_proposer_decides (liveness)": "bounded-progress form PROVED for the message-soup model (Px.single_proposer_decides = Px.single_proposer_decides_full, lean/HappyProofs/C12/PxLive.lean + PxLiveFull.lean): "
+            "from init, p proposes v under ballot b, nobody else proposes; the first schedule segment delivers the Prepare to each acceptor of Q1 before its Promise back, the second the Accept to each acceptor "
+            "of Q2 before its Accepted back — any order, repetitions, among any other deliveries of ballot-b traffic and Decided messages (loss = never delivered) => p decides v, its future resolves with v, "
+            "nobody decides anything else, every other node has decided v or has Decided(v) of p waiting. Built from the per-delivery steps (invariant G, stages never lowered: Px.prepare_step, promise_step with "
+            "start_G for _start_phase2, accept_step, accepted_step, decide_G, decided_step; Px.init_G: the state after propose) and a stage induction with counting. Concrete runs by decide: "
+            "Px.single_proposer_example, counter-example Px.single_proposer_lost_link_undecided (one Promise never delivered: nobody decides). Not covered: engine time (the bound is 'the schedule contains the "
+            "deliveries', not seconds), competing proposers / retries (excluded by hypothesis), q1 = 1 (phase 2 is entered on a delivered Promise only)",
         "paxos current variant": "stepCur (the pinned tree before fixes/C12-paxos-phase2-once.diff; /repo HEAD is the repaired code) keeps one network slot per (kind, ballot, peer). It differs from the "
                                  "pinned tree in exactly two situations (lean/HappyProofs/C12/PxCurExact.lean): A — _start_phase2(b) runs again while an Accept(b) to a peer is still undelivered (the slot then holds "
                                  "only the newer message / value; on the pinned tree both are in flight); B — an acceptor answers a second Accept(b) while its first Accepted(b) is undelivered (one flag, so one "
@@ -1753,6 +1755,10 @@ THEOREMS = [
     "HappyModel.C12.Px.stepCur_eq_step",
     "HappyModel.C12.Px.single_proposer_example",
     "HappyModel.C12.Px.single_proposer_lost_link_undecided",
+    "HappyModel.C12.Px.single_proposer_decides",
+    "HappyModel.C12.Px.init_G",
+    "HappyModel.C12.Px.promise_step",
+    "HappyModel.C12.Px.start_G",
     "HappyModel.C12.Px.prepare_step",
     "HappyModel.C12.Px.accept_step",
     "HappyModel.C12.Px.accepted_step",
